@@ -205,7 +205,7 @@ func ruleSamples(r styleRule, good bool) []string {
 		return []string{"zzz", "nope"}
 	case "fn":
 		if good {
-			return []string{"red", "blue", "1px", "alpha beta", "10px"}
+			return []string{"red", "blue", "1px", "alpha beta", "10px", "teal", "plum"}
 		}
 		return []string{"zzz()", "@x"}
 	default:
